@@ -1,4 +1,6 @@
 import Cfdm.Lemmas.EqualityInv
+import Cfdm.Lemmas.EqualityLeaf
+import Cfdm.Lemmas.EqualityNames
 import Mathlib.Tactic.SplitIfs
 /-
 C05 — equality testing is total, reflexive, order-blind and discriminating.
@@ -6,8 +8,11 @@ Property theorems only (helper lemmas: `Lemmas/Greedy.lean`, `Lemmas/EqualitySpe
 `Lemmas/EqualityField.lean`; model: `Model/Equality.lean`; declarative
 specification: `Spec/Equality.lean`).
 
-The model mirrors the code *after* the repairs proposed in `fixes/C05-*.patch`;
-`C05_old_code_counterexamples` shows what the unrepaired code does.
+The model mirrors the code as it is at /repo HEAD — i.e. after the five repairs of
+`fixes/C05-*.patch` that went in as `fix:` commits (8667bf6, 1903869, f5807e8, 4ccece5, ec99d5c);
+`C05_old_code_counterexamples` shows what the code did before them — plus the one proposed,
+not applied, `fixes/C05-topology-cell-type-compared.patch` (`C05_topology_cell_counterexample`
+shows the code without it).  The leaf array comparison is `Model/EqualityLeaf.lean`.
 -/
 namespace Cfdm.Props.C05
 open Cfdm.Equality Cfdm.Equality.Spec
@@ -150,14 +155,15 @@ theorem C05_names_blind (o : Opts) (x y : Construct) (n m : Option Nat) (e e' : 
 /-- **Discriminating.**  Two constructs of one class that differ in *one* component — a
 property that is not ignored, the data (shape, data type, a mask element, a datum beyond
 tolerance, fill value, units, calendar), the bounds, the geometry type, the interior ring, the
-measure — are unequal. -/
+type tag of the class (the measure of a cell measure, the cell type of a domain topology, the
+connectivity type of a cell connectivity) — are unequal. -/
 theorem C05_discriminating_construct (o : Opts) (x y : Construct) (hx : ConstructWF x) (hcls : x.cls = y.cls) :
     ((∃ name, ¬ ignoredSet o.ignoreFillValue o.ignoreProps name ∧
         ¬ OptRel (ArrEq o.close true) (x.props.lookup name) (y.props.lookup name))
      ∨ ¬ OptRel (DataEq o.close o.ignoreDataType o.ignoreFillValue o.ignoreCompression) x.data y.data
      ∨ (hasBoundsAPI x.cls = true ∧ (x.geometry ≠ y.geometry ∨ ¬ OptRel (SubEq o) x.bounds y.bounds
           ∨ ¬ OptRel (SubEq o) x.interiorRing y.interiorRing))
-     ∨ (x.cls = clsMeasure ∧ x.measure ≠ y.measure))
+     ∨ (hasTypeTag x.cls = true ∧ x.measure ≠ y.measure))
     → constructEquals o x y = .ok false := by
   intro h
   have h1 : (x.cls == y.cls) = true := by simpa using hcls
@@ -335,6 +341,23 @@ theorem C05_total_counterexample :
       = .error .valueError := by decide
 
 example : (mkCon clsDim 7 [2] [0, 1]).cls ≠ (mkCon clsAux 7 [1, 2] [0, 1]).cls := by decide
+
+/-! ## Fields: netCDF names -/
+
+/-- **netCDF names are ignored at field level too**: two fields (or domains) that differ from `x`
+and `y` only in the netCDF variable names and the external status of their metadata constructs
+get the verdict of `x` against `y` — whatever the names are, on one side or both, set or unset. -/
+theorem C05_names_blind_field (o : Opts) (x x' y y' : Field) (hx : x'.strip = x.strip) (hy : y'.strip = y.strip) :
+    fieldEquals o x' y' = fieldEquals o x y := by
+  rw [← fieldEquals_strip o x' y', ← fieldEquals_strip o x y, hx, hy]
+
+/-- Non-vacuity: `oldSquare`-like field with one construct renamed and one made external. -/
+example :
+    let e0 : Entry := { key := 20, axes := [10], c := mkCon clsDim 7 [2] [0, 1] }
+    let e1 : Entry := { key := 21, axes := [10], c := mkCon clsMeasure 8 [2] [5, 6] }
+    let f : Field := { cls := clsField, props := [], data := none, dataAxes := [], axes := [(10, 2)], cons := [e0, e1], cms := [], refs := [] }
+    let f' : Field := { f with cons := [{ e0 with c := { e0.c with ncvar := some 99 } }, { e1 with c := { e1.c with external := true } }] }
+    f'.strip = f.strip := by decide
 
 /-! ## Fields: reflexivity -/
 
@@ -533,6 +556,244 @@ theorem C05_field_data_axes_counterexample :
 example : fieldEquals exact exSquareData
     { exSquareData with cons := [{ key := 20, axes := [10], c := mkCon clsDim 7 [2] [0, 9] },
                                  { key := 21, axes := [11], c := mkCon clsDim 8 [2] [5, 6] }] } = .ok false := by decide
+
+/-! ## The leaf: `Container._equals` on two numpy arrays, as coded -/
+
+section Leaf
+open Cfdm.Equality.Leaf
+
+/-- **The leaf comparison decides "same shape, same mask, all unmasked pairs within
+tolerance"** — for all arrays (any shape, masked array or plain `ndarray` on either side, `nomask`
+or a mask array, numbers with NaN / ±inf, strings, objects): the code — shape test, data-type test
+with its exemption for strings, the comparison of the whole masks *before* any value is looked at,
+`np.allclose` / `np.ma.allclose` as numpy codes them (the separate treatment of infinities
+included) and the `x == y` fallback after their `TypeError` — answers `True` exactly when the
+shapes are equal, the data types are compatible, and at every flat position the mask bits agree
+and, where unmasked, the two values are close (numbers, both arrays numeric: the tolerance of the
+call; anything else: identical; NaN is close to nothing, an infinity only to itself). -/
+theorem C05_leaf_spec (close : Int → Int → Bool) (hc : CloseRefl close) (rp idt : Bool) (x y : LArr)
+    (hx : x.WF) (hy : y.WF) :
+    leafEquals close rp idt x y = true ↔
+      x.shape = y.shape
+      ∧ (idt = true ∨ x.dtype = y.dtype ∨ x.kind = Kind.str ∨ y.kind = Kind.str)
+      ∧ ∀ i (h0 : i < x.vals.length) (h1 : i < y.vals.length),
+          x.maskAt i = y.maskAt i
+          ∧ (x.maskAt i = false → ValClose close (bothNumeric x y) x.vals[i] y.vals[i]) := by
+  rw [leafEquals_iff close hc rp idt x y hx hy]
+  unfold LeafEq
+  constructor
+  · rintro ⟨h1, h2, h3⟩
+    exact ⟨h1, h2, (forall_cells_iff x y hx hy h1 _).mp h3⟩
+  · rintro ⟨h1, h2, h3⟩
+    exact ⟨h1, h2, (forall_cells_iff x y hx hy h1 _).mpr h3⟩
+
+/-- `[1.5, --, inf]` (masked array) and `[1.5, --, inf]` with another value under the mask. -/
+def exLeafX : LArr :=
+  { shape := [3], dtype := 1, kind := Kind.numeric, isMA := true, mask := some [false, true, false],
+    vals := [Val.num 3, Val.num 7, Val.pinf] }
+def exLeafY : LArr := { exLeafX with vals := [Val.num 3, Val.nan, Val.pinf] }
+/-- `['a', --, 'c']` and `['a', 'b', 'c']` (the pair of seeded change C05-5). -/
+def exStrMasked : LArr :=
+  { shape := [3], dtype := 2, kind := Kind.str, isMA := true, mask := some [false, true, false],
+    vals := [Val.tok 1, Val.tok 2, Val.tok 3] }
+def exStrPlain : LArr :=
+  { shape := [3], dtype := 2, kind := Kind.str, isMA := false, mask := none, vals := [Val.tok 1, Val.tok 2, Val.tok 3] }
+
+example : exLeafX.WF := ⟨by decide, by intro m hm; cases hm; decide, by simp [exLeafX], by decide⟩
+example : leafEquals (tolClose 0 1 0 1 1) false false exLeafX exLeafY = true := by decide
+example : leafEquals (tolClose 0 1 0 1 1) false false exStrMasked exStrPlain = false := by decide
+example : leafEquals (tolClose 0 1 0 1 1) false false exStrPlain { exStrPlain with isMA := true } = true := by decide
+
+/-- **Discrimination at the leaf**: one differing mask element, or one commonly unmasked pair
+that is not close, makes the arrays unequal — whatever else they hold, for every option. -/
+theorem C05_leaf_discriminating (close : Int → Int → Bool) (hc : CloseRefl close) (rp idt : Bool) (x y : LArr)
+    (hx : x.WF) (hy : y.WF) :
+    (x.shape ≠ y.shape
+     ∨ (∃ i, i < x.vals.length ∧ i < y.vals.length ∧ x.maskAt i ≠ y.maskAt i)
+     ∨ (∃ i, ∃ (h0 : i < x.vals.length) (h1 : i < y.vals.length), x.maskAt i = false ∧
+          ¬ ValClose close (bothNumeric x y) x.vals[i] y.vals[i]))
+    → leafEquals close rp idt x y = false := by
+  intro h
+  cases hv : leafEquals close rp idt x y with
+  | false => rfl
+  | true =>
+    exfalso
+    obtain ⟨p1, _, p3⟩ := (C05_leaf_spec close hc rp idt x y hx hy).mp hv
+    rcases h with h | ⟨i, h0, h1, h⟩ | ⟨i, h0, h1, hm, h⟩
+    · exact h p1
+    · exact h (p3 i h0 h1).1
+    · exact h ((p3 i h0 h1).2 hm)
+
+/-- **What the mask hides is never looked at**: replacing the data under masked positions of one
+operand (by anything: another number, NaN, an infinity) does not change the verdict. -/
+theorem C05_leaf_hidden_values_irrelevant (close : Int → Int → Bool) (hc : CloseRefl close) (rp idt : Bool)
+    (x x' y : LArr) (hx : x.WF) (hx' : x'.WF) (hy : y.WF)
+    (hsh : x'.shape = x.shape) (hdt : x'.dtype = x.dtype) (hk : x'.kind = x.kind) (hma : x'.isMA = x.isMA)
+    (hmask : x'.mask = x.mask)
+    (hv : ∀ i (h : i < x.vals.length) (h' : i < x'.vals.length), x.maskAt i = false → x'.vals[i] = x.vals[i]) :
+    leafEquals close rp idt x' y = leafEquals close rp idt x y := by
+  have hlen : x'.vals.length = x.vals.length := by rw [hx.size, hx'.size, hsh]
+  have hmk : ∀ i, x'.maskAt i = x.maskAt i := by
+    intro i; simp only [LArr.maskAt, LArr.maskArr, hma, hmask, hlen]
+  have hbn : bothNumeric x' y = bothNumeric x y := by simp only [bothNumeric, hk]
+  apply Bool.eq_iff_iff.mpr
+  rw [C05_leaf_spec close hc rp idt x' y hx' hy, C05_leaf_spec close hc rp idt x y hx hy, hsh, hdt, hk, hbn]
+  constructor
+  · rintro ⟨h1, h2, h3⟩
+    refine ⟨h1, h2, fun i h0 h1' => ?_⟩
+    have h0' : i < x'.vals.length := by rw [hlen]; exact h0
+    obtain ⟨a, b⟩ := h3 i h0' h1'
+    rw [hmk] at a b
+    refine ⟨a, fun hm => ?_⟩
+    have := b hm
+    rwa [hv i h0 h0' hm] at this
+  · rintro ⟨h1, h2, h3⟩
+    refine ⟨h1, h2, fun i h0' h1' => ?_⟩
+    have h0 : i < x.vals.length := by rw [← hlen]; exact h0'
+    obtain ⟨a, b⟩ := h3 i h0 h1'
+    rw [hmk]
+    refine ⟨a, fun hm => ?_⟩
+    rw [hv i h0 h0' hm]
+    exact b hm
+
+example : exLeafY.shape = exLeafX.shape ∧ exLeafY.mask = exLeafX.mask := ⟨rfl, rfl⟩
+
+/-- **Reflexivity at the leaf** holds exactly for arrays without a visible NaN … -/
+theorem C05_leaf_refl_iff_no_nan (close : Int → Int → Bool) (hc : CloseRefl close) (rp idt : Bool) (x : LArr) (hx : x.WF) :
+    leafEquals close rp idt x x = true ↔ NoVisibleNaN x :=
+  leafEquals_refl_iff close hc rp idt x hx
+
+/-- … and the hypothesis cannot be dropped: `[nan, 1.0]` does not equal itself (numpy: `nan != nan`;
+reproduced on cfdm: `Data([nan, 1.]).equals(Data([nan, 1.]))` is `False` — open finding
+`nan-datum-never-equal-even-to-its-copy`), while a masked NaN is harmless. -/
+theorem C05_leaf_nan_counterexample :
+    leafEquals (tolClose 0 1 0 1 0) false false
+      { shape := [2], dtype := 1, kind := Kind.numeric, isMA := false, mask := none, vals := [Val.nan, Val.num 1] }
+      { shape := [2], dtype := 1, kind := Kind.numeric, isMA := false, mask := none, vals := [Val.nan, Val.num 1] } = false
+    ∧ leafEquals (tolClose 0 1 0 1 0) false false
+      { shape := [2], dtype := 1, kind := Kind.numeric, isMA := true, mask := some [true, false], vals := [Val.nan, Val.num 1] }
+      { shape := [2], dtype := 1, kind := Kind.numeric, isMA := true, mask := some [true, false], vals := [Val.nan, Val.num 1] } = true := by
+  constructor <;> decide
+
+/-- **Symmetry at the leaf** whenever the closeness test is (no relative tolerance). -/
+theorem C05_leaf_symm (close : Int → Int → Bool) (hc : CloseRefl close) (hs : CloseSymm close) (rp idt : Bool)
+    (x y : LArr) (hx : x.WF) (hy : y.WF) : leafEquals close rp idt x y = leafEquals close rp idt y x :=
+  leafEquals_symm close hc hs rp idt x y hx hy
+
+/-- The array comparison inside the construct / field model (`arrEquals`, masked = `none`) *is*
+the leaf algorithm run on masked arrays of finite values. -/
+theorem C05_arr_is_leaf (close : Int → Int → Bool) (hc : CloseRefl close) (rp idt : Bool) (x y : Arr)
+    (hx : x.vals.length = listProd x.shape) (hy : y.vals.length = listProd y.shape) (hk : x.isStr = y.isStr) :
+    arrEquals close idt x y = leafEquals close rp idt (embed x) (embed y) :=
+  arrEquals_eq_leaf close hc rp idt x y hx hy hk
+
+example : arrEquals (tolClose 0 1 0 1 0) false (mkArr 1 [2] [4, 5]) (mkArr 1 [2] [4, 5]) = true := by decide
+
+/-- **`Data.equals` with its options** on top of the leaf (uncompressed data): equal shapes, equal
+fill values unless `ignore_fill_value`, *equal* data types unless `ignore_data_type` (no exemption
+for strings at this level), equal units and calendar strings, and the leaf relation on `.array`;
+symmetric when the closeness test is; reflexive when neither the array shows nor the fill value is
+a NaN. -/
+theorem C05_data_leaf_spec (close : Int → Int → Bool) (hc : CloseRefl close) (rp idt ifv : Bool) (x y : LData)
+    (hx : x.arr.WF) (hy : y.arr.WF) :
+    (dataLeafEquals close rp idt ifv x y = true ↔ LDataEq close idt ifv x y)
+    ∧ (CloseSymm close → dataLeafEquals close rp idt ifv x y = dataLeafEquals close rp idt ifv y x)
+    ∧ (NoVisibleNaN x.arr → x.fill ≠ some Val.nan → dataLeafEquals close rp idt ifv x x = true) :=
+  ⟨dataLeafEquals_iff close hc rp idt ifv x y hx hy,
+   fun hs => dataLeafEquals_symm close hc hs rp idt ifv x y hx hy,
+   fun hn hf => dataLeafEquals_refl close hc rp idt ifv x hx hn hf⟩
+
+/-- `['a','b']` as `<U1` and as `<U5`: equal for the leaf (property values), unequal as `Data`
+unless `ignore_data_type`. -/
+example :
+    let a : LArr := { shape := [2], dtype := 5, kind := Kind.str, isMA := false, mask := none, vals := [Val.tok 1, Val.tok 2] }
+    let b : LArr := { a with dtype := 6 }
+    leafEquals (tolClose 0 1 0 1 0) false false a b = true
+    ∧ dataLeafEquals (tolClose 0 1 0 1 0) false false false ⟨a, none, none, none⟩ ⟨b, none, none, none⟩ = false
+    ∧ dataLeafEquals (tolClose 0 1 0 1 0) false true false ⟨a, none, none, none⟩ ⟨b, none, none, none⟩ = true := by
+  decide
+
+end Leaf
+
+/-! ## Symmetry and reflexivity of the other classes -/
+
+/-- **Symmetry** of `Data.equals`, `Bounds.equals` / `InteriorRing.equals` (`PropertiesData`),
+`CellMethod.equals`, `CoordinateReference.equals`, `Datum.equals` / `CoordinateConversion.equals`
+(parameters) and `DomainAxis.equals`, whenever the closeness test is symmetric — for every option set. -/
+theorem C05_symm_others (o : Opts) (hc : CloseSymm o.close) :
+    (∀ x y : Data, dataObjEquals o x y = dataObjEquals o y x)
+    ∧ (∀ x y : Sub, SubWF x → SubWF y → subObjEquals o x y = subObjEquals o y x)
+    ∧ (∀ x y : CellMethod, CellMethodWF x → CellMethodWF y → cellMethodEquals o x y = cellMethodEquals o y x)
+    ∧ (∀ x y : CoordRef, CoordRefWF x → CoordRefWF y → coordRefEquals o x y = coordRefEquals o y x)
+    ∧ (∀ p q : Params, KeysNodup p → KeysNodup q → paramsEquals o.close p q = paramsEquals o.close q p)
+    ∧ (∀ x y : Option Nat, domainAxisEquals x y = domainAxisEquals y x) := by
+  refine ⟨fun x y => ?_, fun x y hx hy => subObjEquals_symm o hc x y hx hy, fun x y hx hy => ?_, fun x y hx hy => ?_,
+    fun p q hp hq => paramsEquals_symm hc p q hp hq, domainAxisEquals_symm⟩
+  · simp only [dataObjEquals, dataEquals_symm hc]
+  · simp only [cellMethodEquals, cellMethodCore_symm hc x y hx hy]
+  · simp only [coordRefEquals, coordRefCore_symm hc x y hx hy]
+
+/-- **Reflexivity** of the component classes not covered by `C05_refl_others`. -/
+theorem C05_refl_components (o : Opts) (hc : CloseRefl o.close) :
+    (∀ s : Sub, SubWF s → subObjEquals o s s = .ok true)
+    ∧ (∀ p : Params, KeysNodup p → paramsEquals o.close p p = true) :=
+  ⟨fun s hs => subObjEquals_refl o hc s hs, fun p hp => paramsEquals_refl hc p hp⟩
+
+example : SubWF { props := [(3, mkArr 0 [] [1])], data := some (mkData [2] [1, 2]) } := by
+  simp [SubWF, KeysNodup]
+example : subObjEquals exact { props := [(3, mkArr 0 [] [1])], data := some (mkData [2] [1, 2]) }
+    { props := [(3, mkArr 0 [] [1])], data := some (mkData [2] [1, 2]) } = .ok true := by decide
+
+/-- **The component classes decide their specification**: `Bounds`, `InteriorRing`, `Count`, `Index`,
+`List` (`PropertiesData.equals`) and `NodeCountProperties`, `PartNodeCountProperties`
+(`Properties.equals`: no data on either side) are equal exactly when every property that is not
+ignored agrees and the data agree. -/
+theorem C05_component_spec (o : Opts) (x y : Sub) (hx : SubWF x) :
+    subObjEquals o x y = .ok true ↔ SubObjEq o x y := by
+  simp only [subObjEquals, Except.ok.injEq]
+  exact subObjCore_iff o x y hx
+
+/-! ## `CellMethod.equals(..., ignore_qualifiers=…)` -/
+
+/-- **`ignore_qualifiers` is exact**: without names it is the plain comparison; a cell method
+and its variant that differs only in the value of qualifier `q` are equal exactly when `q` is
+named; a variant that differs only in its intervals is equal exactly when `'interval'` is named. -/
+theorem C05_ignore_qualifiers_exact (close : Int → Int → Bool) (hc : CloseRefl close) (x : CellMethod)
+    (hx : CellMethodWF x) (iq : List Nat) (ii : Bool) :
+    (∀ y, cellMethodCoreIQ close [] false x y = cellMethodCore close x y)
+    ∧ (∀ q v w, x.quals.lookup q = some v → w ≠ v →
+        cellMethodCoreIQ close iq ii x { x with quals := x.quals.map (fun kv => if kv.1 == q then (kv.1, w) else kv) }
+          = decide (q ∈ iq))
+    ∧ (∀ ivs, ¬ (x.intervals.length = ivs.length ∧
+          ∀ i (h0 : i < x.intervals.length) (h1 : i < ivs.length), DataEq close true true true x.intervals[i] ivs[i]) →
+        cellMethodCoreIQ close iq ii x { x with intervals := ivs } = ii) :=
+  ⟨fun y => cellMethodCoreIQ_nil close x y,
+   fun q v w hv hne => cellMethodCoreIQ_qualifier_only hc iq ii x hx q v w hv hne,
+   fun ivs hne => cellMethodCoreIQ_intervals_only hc iq ii x hx ivs hne⟩
+
+/-- `mean where land (interval: 3)` against `mean where sea`, `where` (60) ignored or not. -/
+example :
+    let m : CellMethod := { axes := [10], method := some 40, quals := [(60, 70)], intervals := [mkData [] [3]] }
+    let m' : CellMethod := { m with quals := [(60, 71)] }
+    cellMethodCoreIQ exact.close [60] false m m' = true ∧ cellMethodCoreIQ exact.close [] false m m' = false
+    ∧ cellMethodCoreIQ exact.close [] true m { m with intervals := [] } = true
+    ∧ cellMethodCoreIQ exact.close [60] false m { m with intervals := [] } = false := by decide
+
+/-! ## Domain topology and cell connectivity: the type tag -/
+
+/-- A face-node domain topology of two triangles … -/
+def exTopology (cell : Nat) : Construct :=
+  { cls := clsTopology, props := [], data := some (mkData [2, 3] [0, 1, 2, 1, 2, 3]), external := false, ncvar := none,
+    geometry := none, bounds := none, interiorRing := none, measure := some cell }
+
+/-- … with `cell` `face` (50) against `edge` (51): the code as it is answers `True` (reproduced on
+cfdm with `example_field(8)`; open finding `domain-topology-cell-or-connectivity-type-not-compared`),
+the code after `fixes/C05-topology-cell-type-compared.patch` answers `False`. -/
+theorem C05_topology_cell_counterexample :
+    constructCoreUntagged exact (exTopology 50) (exTopology 51) = true
+    ∧ constructEquals exact (exTopology 50) (exTopology 51) = .ok false
+    ∧ constructEquals exact (exTopology 50) (exTopology 50) = .ok true := by
+  refine ⟨by decide, by decide, by decide⟩
 
 /-! ## The unrepaired code -/
 
